@@ -29,7 +29,7 @@ FUNCTIONS = [
 ]
 BOUNDS = {
     "quick": dict(batch_n="0..4", chunksize="None or any integer in [1, n+1] (symbolic)", n_pool="any integer in [1,4] (symbolic)", pool=["none", "order-preserving map"], vectorised=[True, False], returns=["scalar", "length-1 array"]),
-    "thorough": dict(batch_n="0..8", chunksize="None or any integer in [1, n+1] (symbolic)", n_pool="any integer in [1,4] (symbolic)", pool=["none", "order-preserving map"], vectorised=[True, False], returns=["scalar", "length-1 array"]),
+    "thorough": dict(batch_n="0..8 and 11", chunksize="None or any integer in [1, n+1] (symbolic)", n_pool="any integer in [1,4] (symbolic)", pool=["none", "order-preserving map"], vectorised=[True, False], returns=["scalar", "length-1 array"]),
 }
 SCOPE = "The user's likelihood / prior is an uninterpreted function of the (symbolic) point, so 'same value, same order' is decided for every function and every point."
 ASSUMPTIONS = [
@@ -242,7 +242,7 @@ def make_check_vectorised(kind):
 
 def units(tier):
     us = []
-    ns = [0, 1, 2, 3, 4] if tier == "quick" else [0, 1, 2, 3, 4, 5, 6, 8]
+    ns = [0, 1, 2, 3, 4] if tier == "quick" else [0, 1, 2, 3, 4, 5, 6, 8, 11]
     opts = dict()
     first = True
     for n in ns:
